@@ -30,7 +30,8 @@ Print Assumptions C16_text_count_must_match.
 
 (* auto-detected input: likewise *)
 Theorem C16_any_format_count_must_match : forall inp sh vals,
-  read_spectrum inp = inl (sh, vals) -> N.of_nat (length vals) = nelements sh.
+  read_spectrum inp = inl (sh, vals) ->
+  N.of_nat (length vals) = nelements sh /\ existsb (N.eqb 0) sh = false.
 Proof. exact (@read_spectrum_count). Qed.
 Print Assumptions C16_any_format_count_must_match.
 
